@@ -650,11 +650,120 @@ func refineCase(c *run.Ctx) run.Result {
 	return res
 }
 
+// equalProducts lists, per product P = (rows-1)*columns, the admissible (rows, columns) pairs; only
+// products with at least two pairs are kept. Index counts and vertex counts of the UV spheres depend
+// on (rows, columns) only through such products, so anything remembered between calls by size alone
+// confuses exactly these resolutions.
+var equalProducts = func() [][][2]int {
+	by := map[int][][2]int{}
+	for rows := 2; rows <= 40; rows++ {
+		for cols := 3; cols <= 64; cols++ {
+			if p := (rows - 1) * cols; p <= 256 {
+				by[p] = append(by[p], [2]int{rows, cols})
+			}
+		}
+	}
+	var out [][][2]int
+	for p := 3; p <= 256; p++ {
+		if len(by[p]) >= 2 {
+			out = append(out, by[p])
+		}
+	}
+	return out
+}()
+
+// sequenceCase makes the CALL ORDER a dimension: 2-4 primitives are built one after the other in one
+// process and every one of them is judged. Patterns: the same kind at two different resolutions with
+// equal (rows-1)*columns (both orders, optionally returning to the first), different kinds interleaved,
+// identical calls repeated, the same kind at unrelated resolutions (growing and shrinking).
+func sequenceCase(c *run.Ctx) run.Result {
+	var res run.Result
+	r := c.Rng
+	sphereKinds := []string{"sphere", "sphere-unwelded", "hemisphere"}
+	var seq []prim
+	pattern := c.Case % 4
+	switch pattern {
+	case 0:
+		k := sphereKinds[(c.Case/4)%3]
+		fam := equalProducts[r.Intn(len(equalProducts))]
+		i := r.Intn(len(fam))
+		j := (i + 1 + r.Intn(len(fam)-1)) % len(fam)
+		a := fill(r, combo{kind: k, rows: fam[i][0], cols: fam[i][1]})
+		b := fill(r, combo{kind: k, rows: fam[j][0], cols: fam[j][1]})
+		if r.Intn(2) == 0 {
+			b.R = a.R
+		}
+		seq = []prim{a, b}
+		switch r.Intn(4) {
+		case 0:
+			seq = append(seq, a)
+		case 1: // the other welding of the same resolution in between
+			k2 := sphereKinds[r.Intn(3)]
+			seq = []prim{a, fill(r, combo{kind: k2, rows: fam[j][0], cols: fam[j][1]}), b}
+		}
+	case 1:
+		all := []string{"sphere", "sphere-unwelded", "hemisphere", "cylinder", "cube-welded", "cube-quads"}
+		n := 3 + r.Intn(2)
+		rows, cols := 2+r.Intn(11), 3+r.Intn(14)
+		for i := 0; i < n; i++ {
+			if r.Intn(2) == 0 {
+				rows, cols = 2+r.Intn(11), 3+r.Intn(14)
+			}
+			seq = append(seq, fill(r, combo{kind: all[r.Intn(len(all))], rows: rows, cols: cols, side: 3 + r.Intn(22), uv: []int{uvNone, uvDefault, uvRandom}[r.Intn(3)]}))
+		}
+	case 2:
+		all := []string{"sphere", "sphere-unwelded", "hemisphere", "cylinder", "cube-welded", "cube-quads"}
+		a := fill(r, combo{kind: all[(c.Case/4)%len(all)], rows: 2 + r.Intn(11), cols: 3 + r.Intn(14), side: 3 + r.Intn(22), uv: []int{uvNone, uvDefault, uvRandom}[r.Intn(3)]})
+		seq = []prim{a, a}
+		if r.Intn(2) == 0 {
+			seq = append(seq, a)
+		}
+	default:
+		k := []string{"sphere", "sphere-unwelded", "hemisphere", "cylinder"}[(c.Case/4)%4]
+		n := 2 + r.Intn(3)
+		for i := 0; i < n; i++ {
+			seq = append(seq, fill(r, combo{kind: k, rows: 2 + r.Intn(30), cols: 3 + r.Intn(40), side: 3 + r.Intn(60), uv: uvNone}))
+		}
+	}
+	var calls []string
+	var last *observed
+	judged := 0
+	for i, p := range seq {
+		ob := check(c, &res, p)
+		calls = append(calls, p.String())
+		if ob != nil {
+			last = ob
+			judged++
+		}
+		if i > 0 {
+			q := seq[i-1]
+			if p.Kind == q.Kind && p.Rows > 0 && (p.Rows-1)*p.Cols == (q.Rows-1)*q.Cols && (p.Rows != q.Rows || p.Cols != q.Cols) {
+				res.Count("consecutive_calls_with_equal_rows_minus_1_times_columns", 1)
+			}
+			if p.String() == q.String() {
+				res.Count("consecutive_identical_calls", 1)
+			}
+			if p.Kind != q.Kind {
+				res.Count("consecutive_calls_of_different_kinds", 1)
+			}
+		}
+		res.SetAdd("kinds", p.Kind)
+	}
+	res.Count("call_sequences", 1)
+	res.Sig = fmt.Sprintf("pattern%d %s n%d", pattern, seq[0].Kind, len(seq))
+	if pattern == 0 {
+		res.Sig += fmt.Sprintf(" product%d", (seq[0].Rows-1)*seq[0].Cols)
+	}
+	res.Nontrivial = judged == len(seq) && last != nil
+	res.Sample = map[string]any{"calls_in_order": calls}
+	return res
+}
+
 func Spec() *run.Spec {
 	return &run.Spec{
 		ID: "C18", Level: "exploration",
 		Rule: "grid: every (kind, rows 2..12 x columns 3..16 | sides 3..24 | cube variant, UV option) combination, each repetition with fresh dimensions drawn over 1e-9..1e9 (common scale with ratios <= 1e3, independent log-uniform dimensions with ratio <= 1e12, named extreme aspect ratios such as 1x1x1e-7 and 1e6x1e-6x1, small integers); " +
-			"large: counts sampled log-uniformly up to 200; refine: doubling sequences of one primitive up to a count of 256. A case is non-trivial when the constructor returned a mesh of >= 4 faces " +
+			"large: counts sampled log-uniformly up to 200; sequence: 2-4 constructor calls in one process, each judged (equal (rows-1)*columns pairs in both orders, kinds interleaved, identical calls repeated, unrelated resolutions); refine: doubling sequences of one primitive up to a count of 256. A case is non-trivial when the constructor returned a mesh of >= 4 faces " +
 			"(refine: >= 4 steps); distinctness = kind + counts (bucketed by 25 in `large`) + UV option class.",
 		Assumptions: []string{
 			"admissible parameters: radius/height/width/depth > 0, rows >= 2, columns >= 3 (the constructors panic below that), cylinder sides >= 3 (Cylinder accepts 1 and 2 without complaint but a 1- or 2-gon prism is not a solid), NoTop/NoBottom false (capped cylinder)",
@@ -665,6 +774,7 @@ func Spec() *run.Spec {
 		},
 		MinNontrivial: map[string]int{"quick": 750, "thorough": 800},
 		MinObserved: map[string]int64{"kinds": 6, "meshes_with_normals_checked": 300, "refinement_steps": 100, "meshes_with_a_count_of_150_or_more": 5, "uv_options": 10, "uv_masks": 140,
+			"call_sequences": 300, "consecutive_calls_with_equal_rows_minus_1_times_columns": 100, "consecutive_identical_calls": 100, "consecutive_calls_of_different_kinds": 100,
 			"size_decades": 16, "meshes_with_a_dimension_below_2e-6": 200, "meshes_with_a_dimension_above_1e6": 200, "meshes_with_aspect_ratio_of_1e6_or_more": 50},
 		Phases: []run.Phase{
 			{Name: "grid", Cases: func(t string) int {
@@ -679,6 +789,12 @@ func Spec() *run.Spec {
 				}
 				return 300
 			}, Run: largeCase, Batch: 10, CPUBudgetS: 60},
+			{Name: "sequence", Cases: func(t string) int {
+				if t == "thorough" {
+					return 6000
+				}
+				return 600
+			}, Run: sequenceCase, Batch: 25, CPUBudgetS: 60},
 			{Name: "refine", Cases: func(t string) int {
 				if t == "thorough" {
 					return 1000
